@@ -98,10 +98,25 @@ class HostKeys(MutableMapping):
                 if entry is not None:
                     _hostnames = entry.hostnames
                     for h in list(_hostnames):
-                        if self.check(h, entry.key):
+                        if self._has_entry(h, entry.key):
                             entry.hostnames.remove(h)
                     if len(entry.hostnames):
                         self._entries.append(entry)
+
+    def _has_entry(self, hostname, key):
+        """
+        Return True if some entry lists ``hostname`` with exactly ``key``,
+        whether or not an earlier entry of the same key type shadows it.
+        """
+        for e in self._entries:
+            if (
+                e.key is not None
+                and self._hostname_matches(hostname, e)
+                and e.key.get_name() == key.get_name()
+                and e.key.asbytes() == key.asbytes()
+            ):
+                return True
+        return False
 
     def save(self, filename):
         """
